@@ -2810,6 +2810,45 @@ func r6VectorMerge(c *RuleCtx) {
 		}
 		pa = newPathAnalysis(fn, tr)
 		pa.run(0)
+		// a step of the merge that loads the indexes and leaves freeing them to its callers: every caller
+		// registered the free (a deferred call of a free routine, or of a closure that runs one) before it
+		// called this step
+		callersFree := false
+		if fn.Parent() == nil && fn.Object() != nil && !fn.Object().Exported() {
+			sites := c.p.callersOf(fn)
+			callersFree = len(sites) > 0
+			for _, cs := range sites {
+				g := cs.Parent()
+				covered := false
+				eachInstr(g, func(b *ssa.BasicBlock, in ssa.Instruction) {
+					d, ok := in.(*ssa.Defer)
+					if !ok || !(b == cs.Block() || b.Dominates(cs.Block())) {
+						return
+					}
+					h := resolvedCallee(d)
+					if h == nil {
+						return
+					}
+					if freeFns[h] {
+						covered = true
+					}
+					for _, cs2 := range callSites(h) {
+						if k := staticCallee(cs2); k != nil && freeFns[k] && h.Parent() != nil {
+							covered = true
+						}
+					}
+					// a method of the same object that frees (`defer m.free()`)
+					for _, cs2 := range callSites(h) {
+						if k := staticCallee(cs2); k != nil && freeFns[k] && h.Parent() == nil && h.Signature.Recv() != nil {
+							covered = true
+						}
+					}
+				})
+				if !covered {
+					callersFree = false
+				}
+			}
+		}
 		labels := map[string]int{}
 		for _, ret := range returnsOf(fn) {
 			if !pa.reachable(ret.Block()) {
@@ -2818,7 +2857,7 @@ func r6VectorMerge(c *RuleCtx) {
 			lbl := exitLabel(ret, labels)
 			okc, dbl := true, false
 			for _, ev := range pa.statesBefore(ret) {
-				if ev&evStored != 0 && ev&evFreed == 0 {
+				if ev&evStored != 0 && ev&evFreed == 0 && !callersFree {
 					okc = false
 				}
 				if ev&evDouble != 0 {
